@@ -487,20 +487,16 @@ def final_probe(mir: Mirror, probe_s: int = 9):
 # ---- exhaustive interleavings of small per-connection scripts
 def interleavings(scripts):
     """All merges of the scripts that keep each script's own order."""
-    idx = []
-    for i, sc in enumerate(scripts):
-        idx += [i] * len(sc)
-    seen = set()
-    for perm in set(itertools.permutations(idx)):
-        if perm in seen:
-            continue
-        seen.add(perm)
-        pos = [0] * len(scripts)
-        out = []
-        for i in perm:
-            out.append(scripts[i][pos[i]])
-            pos[i] += 1
-        yield out
+    def rec(pos):
+        if all(p == len(sc) for p, sc in zip(pos, scripts)):
+            yield []
+            return
+        for i, sc in enumerate(scripts):
+            if pos[i] < len(sc):
+                nxt = pos[:i] + (pos[i] + 1,) + pos[i + 1:]
+                for rest in rec(nxt):
+                    yield [sc[pos[i]]] + rest
+    yield from rec(tuple(0 for _ in scripts))
 
 
 def recent_scripts():
@@ -776,3 +772,300 @@ async def add_dict_user(env, name: str, password: str) -> None:
     hashed = await Passwords(env.config).hash_password(password)
     ident = Identity(name, env.backend.login, None, set())
     await ident.set(UserMetadata(env.config, name, password=hashed))
+
+
+# ------------------------------------------------------- batches of histories
+def _mk_env(maildir: bool):
+    from .pymap_env import DictEnv, MaildirEnv
+    return MaildirEnv(users=(('u1', 'pass'),)) if maildir else DictEnv()
+
+
+async def _batch_async(spec) -> list[dict]:
+    import random
+    out = []
+    maildir = spec.get('maildir', False)
+    env = None if maildir else await _mk_env(False).start()
+    nuser = 0
+
+    async def one(ops_or_gen, label):
+        nonlocal nuser
+        if maildir:
+            e = await _mk_env(True).start()
+            user, pw = b'u1', b'pass'
+        else:
+            e = env
+            nuser += 1
+            user, pw = b'h%d' % nuser, b'pw'
+            await add_dict_user(e, user.decode(), 'pw')
+        rec = {'label': label, 'base': 0 if maildir else 100, 'shared': not maildir,
+               'hist': [], 'fails': [], 'crashes': [], 'error': None, 'checks': 0}
+        try:
+            w = mon = None
+            try:
+                w, mon, _mir = await run_history(e, user, pw, ops_or_gen, maildir=maildir)
+            except (Unexpected, asyncio.TimeoutError, AssertionError) as exc:
+                rec['error'] = f'{type(exc).__name__}: {exc}'[:600]
+            if w is not None:
+                rec['hist'] = w.hist
+                rec['crashes'] = w.crashes[:3]
+            if mon is not None:
+                rec['fails'] = mon.fail
+                rec['checks'] = mon.n_checks
+        finally:
+            if maildir:
+                e.close()
+        out.append(rec)
+
+    if spec['kind'] == 'random':
+        rng = random.Random(spec['seed'])
+        for k in range(spec['n']):
+            nsess = rng.choice([1, 2, 2, 3, 3, 3])
+            nops = rng.randint(3, spec.get('maxops', 22))
+            cnt = [0]
+            profile = spec['profile']
+
+            def gen(mir, cnt=cnt, nops=nops, nsess=nsess):
+                if cnt[0] >= nops:
+                    return None
+                cnt[0] += 1
+                return gen_op(rng, mir, nsess, profile, maildir=maildir)
+            await one(gen, f'random/{spec["profile"]}/{spec["seed"]}/{k}')
+    elif spec['kind'] == 'scripts':
+        lib = recent_scripts()
+        for combo in spec['combos']:
+            mirror = Mirror()
+            scripts = [instantiate(lib[name], s, mirror) for s, name in enumerate(combo)]
+            pre = spec.get('pre', [])
+            for order in interleavings(scripts):
+                await one(list(pre) + order, 'scripts/' + '+'.join(combo))
+    elif spec['kind'] == 'fixed':
+        for label, ops in spec['hists']:
+            await one(ops, label)
+    return out
+
+
+def run_batch(spec) -> list[dict]:
+    from .pymap_env import run
+    return run(_batch_async(spec), timeout=spec.get('timeout', 900))
+
+
+def fixed_histories():
+    """Witnesses of the defects fixed in /repo (must stay quiet) and a few
+    hand-written corner cases."""
+    A = lambda s, nm, *ms: ('append', s, nm, list(ms))
+    return [
+        # C17-F1: EXAMINE + APPEND by the same connection, then SELECT elsewhere
+        ('examine_append', [('select', 0, 0, True), A(0, 0, (1, False, False)), ('fetch', 0),
+                            ('select', 1, 0, False), ('fetch', 1)]),
+        # C17-F2: APPEND (\Recent) is not stored as a flag
+        ('append_recent_flag', [A(0, 0, (1, False, True)), ('select', 0, 0, False), ('fetch', 0),
+                                ('select', 1, 0, False), ('fetch', 1), ('create', 1, 1),
+                                ('copy', 1, None, 1), ('select', 2, 1, False), ('fetch', 2),
+                                ('select', 0, 1, False), ('fetch', 0)]),
+        # C17-F3 (maildir): several messages arrive unselected, first SELECT sees all
+        ('many_unselected', [A(0, 0, (1, False, False)), A(0, 0, (2, False, False)),
+                             A(0, 0, (3, False, False), (4, False, False)),
+                             A(1, 0, (5, False, False)), ('status', 1, 0),
+                             ('select', 0, 0, True), ('fetch', 0),
+                             ('select', 1, 0, False), ('fetch', 1), ('select', 2, 0, False),
+                             ('fetch', 2)]),
+        # expunge the highest UID, append again
+        ('expunge_highest', [A(0, 0, (1, False, False), (2, True, False)), ('select', 0, 0, False),
+                             ('fetch', 0), ('expunge', 0, None), A(1, 0, (3, False, False)),
+                             ('fetch', 0), ('status', 1, 0)]),
+        # COPY spelled in descending order, into the same mailbox
+        ('copy_descending', [A(0, 0, (1, False, False), (2, False, False)), A(0, 0, (3, False, False)),
+                             ('select', 0, 0, False), ('copy', 0, [103, 101], 0), ('fetch', 0),
+                             ('move', 0, [102, 101], 0), ('fetch', 0)]),
+        # RENAME carries the counter; a new mailbox of the old name starts afresh
+        ('rename_carries', [('create', 0, 1), A(0, 1, (1, False, False), (2, False, False)),
+                            ('select', 1, 1, False), ('store', 1, [102], 'add', True, False),
+                            ('expunge', 1, None), ('rename', 0, 1, 2), ('noop', 1),
+                            A(0, 2, (3, False, False)), ('status', 0, 2), ('create', 0, 1),
+                            A(0, 1, (4, False, False)), ('status', 0, 1), ('status', 1, 2)]),
+        # STORE with \Recent in every mode
+        ('store_recent', [A(0, 0, (1, False, False), (2, False, False)), ('select', 0, 0, False),
+                          ('fetch', 0), ('store', 0, None, 'del', False, True), ('fetch', 0),
+                          ('store', 0, [101], 'add', False, True), ('fetch', 0),
+                          ('store', 0, [102], 'repl', True, True), ('fetch', 0),
+                          ('select', 1, 0, False), ('fetch', 1),
+                          ('store', 1, None, 'add', False, True), ('fetch', 1), ('fetch', 0)]),
+    ]
+
+
+async def stale_inbox_scenario() -> dict | None:
+    """RENAME INBOX while another connection has INBOX selected: does that
+    connection keep answering, under the UIDVALIDITY it was given, with the
+    messages of the *new* INBOX?  (finding C04-F1)"""
+    env = await _mk_env(False).start()
+    await add_dict_user(env, 'stale', 'pw')
+    w = World(env, b'stale', b'pw')
+    try:
+        await w.do(('append', 1, 0, [(1, False, False)]))
+        sel = await w.do(('select', 0, 0, False))
+        before = await w.do(('fetch', 0))
+        await w.do(('rename', 1, 0, 1))
+        await w.do(('append', 1, 0, [(2, False, False)]))
+        st, _t, raw1 = await w.cmd(0, b'NOOP')
+        st2, _t2, raw2 = await w.cmd(
+            0, b'UID FETCH 101 (UID BODY.PEEK[HEADER.FIELDS (SUBJECT)])')
+        m = re.search(rb'UID 101 BODY\[HEADER\.FIELDS \(SUBJECT\)\] \{\d+\}\r\nSubject: m(\d+)', raw2)
+        told = b'BYE' in raw1 or b'BYE' in raw2 or st in ('no',) or st2 in ('no',)
+        if m and int(m.group(1)) != before['rows'][0][3] and not told:
+            return {'kind': 'inbox_replaced_under_selection', 'validity_given': sel['v'],
+                    'uid': 101, 'was': before['rows'][0][3], 'now': int(m.group(1)),
+                    'noop': raw1.decode('latin-1'), 'fetch': raw2.decode('latin-1')[:300]}
+        return None
+    finally:
+        await w.close_all()
+
+
+def explain(prop: str, case: str, full: bool) -> str:
+    from . import coqrun
+    return coqrun.eval_term(prop, 'explain', HEADER,
+                            f'explain_history {"true" if full else "false"} {case}')
+
+
+def run_check(ctx, prop: str) -> None:
+    """The body of ./check C04 and ./check C17."""
+    from concurrent.futures import ProcessPoolExecutor
+    from .pymap_env import run
+    full = prop == 'C17'
+    clauses = C17_CLAUSES if full else C04_CLAUSES
+    profile = 'recent' if full else 'uid'
+    ctx.check_proofs(['UidRecent/Check'])
+    rng = ctx.rng
+    specs = []
+    nb = ctx.scale(10, 60)
+    per = ctx.scale(20, 60)
+    for _ in range(nb):
+        specs.append({'kind': 'random', 'seed': rng.getrandbits(40), 'n': per, 'profile': profile})
+    # the other profile too, at a quarter of the volume
+    for _ in range(max(2, nb // 4)):
+        specs.append({'kind': 'random', 'seed': rng.getrandbits(40), 'n': per,
+                      'profile': 'uid' if full else 'recent'})
+    # maildir, reduced volume
+    for _ in range(ctx.scale(3, 16)):
+        specs.append({'kind': 'random', 'seed': rng.getrandbits(40), 'n': ctx.scale(8, 30),
+                      'profile': profile, 'maildir': True, 'maxops': 16})
+    specs.append({'kind': 'fixed', 'hists': fixed_histories()})
+    specs.append({'kind': 'fixed', 'hists': fixed_histories(), 'maildir': True})
+    # every interleaving of small per-connection scripts
+    names = sorted(recent_scripts())
+    pairs = [(a, b) for i, a in enumerate(names) for b in names[i:]]
+    triples_pool = ['rw', 'ro', 'app', 'app2', 'rw_logout', 'ro_app']
+    triples = [(a, b, c) for i, a in enumerate(triples_pool)
+               for j, b in enumerate(triples_pool[i:], i) for c in triples_pool[j:]]
+    if ctx.quick:
+        pairs = rng.sample(pairs, 18 if full else 8)
+        triples = rng.sample(triples, 4 if full else 2)
+    else:
+        triples = triples if full else rng.sample(triples, 30)
+    for k in range(0, len(pairs), 4):
+        specs.append({'kind': 'scripts', 'combos': pairs[k:k + 4]})
+    for t in triples:
+        specs.append({'kind': 'scripts', 'combos': [t]})
+    results: list[dict] = []
+    with ProcessPoolExecutor(max_workers=12) as ex:
+        for res in ex.map(run_batch, specs):
+            results.extend(res)
+    # ---- monitors, cases
+    cases, keep = [], []
+    kinds: dict[str, int] = {}
+    nops = 0
+    for r in results:
+        lab = r['label'].split('/')[0] + ('-maildir' if not r['shared'] else '')
+        kinds[lab] = kinds.get(lab, 0) + 1
+        hist = r['hist']
+        nops += len(hist)
+        nontrivial = any(ob['k'] in ('append', 'copy') for _op, ob in hist)
+        ctx.count((r['label'], repr(hist)), nontrivial=nontrivial)
+        ctx.evaluations += r['checks']
+        for clause, what, obs in r['fails']:
+            if clause in clauses:
+                ctx.failure(clause, what, {'hist': hist_json(hist), 'base': r['base'],
+                                           'shared': r['shared'], 'label': r['label']}, obs)
+        if r['error']:
+            ctx.disagreement('driver', {'label': r['label'], 'error': r['error'],
+                                        'hist': hist_json(hist)})
+            continue
+        if r['crashes']:
+            ctx.extra.setdefault('server_crashes', []).append(
+                {'label': r['label'], 'crash': r['crashes'][0]})
+        cases.append(enc_case(r['base'], r['shared'], hist))
+        keep.append(r)
+    if keep:
+        ctx.sample({'history': hist_json(keep[0]['hist'])[:8]})
+        ctx.sample({'history': hist_json(keep[-1]['hist'])[:8]})
+    chk = 'chk_history' if full else 'chk_history_uid'
+    bad = ctx.run_cases('histories', HEADER, 'N * bool * list (op * out)', cases, chk, shard=120)
+    for i in bad[:4]:
+        r = keep[i]
+        model = explain(ctx.prop, cases[i], full)
+        ctx.disagreement('histories', {
+            'label': r['label'], 'base': r['base'], 'shared': r['shared'],
+            'hist': hist_json(r['hist']),
+            'model_answers_up_to_first_mismatch': model[-1500:],
+            'monitor_failures_any_clause': [f[:2] for f in r['fails']]})
+    # ---- printing of uid sets (AppendUid / CopyUid), C04 only
+    if not full:
+        from pymap.parsing.specials.sequenceset import SequenceSet
+        ucases = []
+        for _ in range(ctx.scale(400, 4000)):
+            l = [rng.randint(1, 40) for _ in range(rng.randint(1, 10))]
+            if rng.random() < 0.5:
+                l = sorted(set(l))
+            ucases.append(T.pair(T.nlist(l), T.bytes_(bytes(SequenceSet.build(l)))))
+            ctx.count(('uidset', tuple(l)))
+        for i in ctx.run_cases('uidset', HEADER, 'list N * bytes', ucases, 'chk_uidset')[:3]:
+            ctx.disagreement('uidset', {'case': ucases[i]})
+    # ---- the open finding
+    if not full:
+        obs = run(stale_inbox_scenario(), timeout=60)
+        if obs is not None:
+            ctx.failure('stale_selection',
+                        'after RENAME INBOX a connection that has INBOX selected is answered, '
+                        'under the UIDVALIDITY it was given, with a message of the new INBOX',
+                        {'scenario': 'stale_inbox_scenario'}, obs)
+    ctx.extra['histories'] = kinds
+    ctx.extra['operations'] = nops
+    ctx.rule = ('a case is a history (list of abstract operations by numbered connections of one '
+                'fresh user, executed as whole IMAP commands on the real server) with every answer; '
+                'random histories: 3-22 operations, 1-3 connections, weights per profile '
+                '(see harness/uidrecent.py gen_op), arguments mostly valid; scripts: every '
+                'interleaving of 2-3 fixed per-connection scripts; each history ends with a probe '
+                'connection that STATUSes, EXAMINEs, SELECTs and dumps every mailbox; '
+                'non-trivial = at least one UID was assigned; distinct = by history')
+    ctx.assumptions += [
+        'a dict-backend command runs without suspending (whole commands are atomic); the '
+        'correspondence would disagree otherwise',
+        'CPython refcounting removes a dropped SelectedMailbox from the WeakSet at once '
+        '(the driver calls gc.collect() after every closed connection)',
+        'commands of a connection whose selected name was re-bound to another mailbox are not '
+        'modelled (open finding C04-F1); the driver logs such a connection out instead',
+        'mailboxes declared read-only by the backend (demo Trash) and hierarchical names are '
+        'outside the generated histories',
+    ]
+
+
+def replay_history(ctx, obj) -> int:
+    from .pymap_env import run
+    ops = [tuple(tuple(y) if isinstance(y, list) and y and not isinstance(y[0], list) else y
+                 for y in op) for op, _ob in obj['hist']]
+
+    def fix(op):
+        op = list(op)
+        if op[0] == 'append':
+            op[3] = [tuple(m) for m in op[3]]
+        if op[0] in ('expunge', 'copy', 'move', 'store') and isinstance(op[2], tuple):
+            op[2] = list(op[2])
+        return tuple(op)
+    ops = [fix(op) for op in ops]
+    res = run_batch({'kind': 'fixed', 'hists': [('replay', ops)],
+                     'maildir': not obj.get('shared', True)})[0]
+    for t, (op, ob) in enumerate(res['hist']):
+        print(t, op, '->', ob)
+    print('monitor:', res['fails'], 'error:', res['error'])
+    case = enc_case(res['base'], res['shared'], res['hist'])
+    print('model:', explain(ctx.prop, case, ctx.prop == 'C17')[-1200:])
+    return 1 if res['fails'] else 0
